@@ -776,7 +776,7 @@ public:
             }
             if (steps == 0)
                 res.probes["zero-duration-control-in-path"]++;
-            if (steps < c.minD || steps > c.maxD)
+            if ((steps < c.minD || steps > c.maxD) && form[0] == 'a' && form[1] == 's')  // "as reported" only
                 res.probes["duration-outside-min-max(not judged)"]++;
             toRaw(*c.w, st[i], x);
             for (long s = 0; s < (long)steps; s++)
